@@ -59,8 +59,13 @@ WrongCol(sc, r) == IF sc.corrupt.kind = "width" /\ sc.corrupt.row = r THEN sc.co
 
 CountOf(sc, r) == IF sc.corrupt.kind = "cnt" /\ sc.corrupt.row = r THEN sc.corrupt.to ELSE Len(sc.table[r])
 
+\* cells of the header extension area (the header announces its length; the reader skips it)
+ExtOf(sc) == IF "ext" \in DOMAIN sc THEN sc.ext ELSE 0
+
 FullStream(sc) ==
-    (IF sc.hdr THEN <<Cell("sig1", 0), Cell("sig2", 0), Cell("flags", 0), Cell("ext", 0)>> ELSE <<>>)
+    (IF sc.hdr THEN <<Cell("sig1", 0), Cell("sig2", 0), Cell("flags", 0), Cell("ext", ExtOf(sc))>>
+                    \o [i \in 1..ExtOf(sc) |-> Cell("xd", 0)]
+     ELSE <<>>)
     \o Concat([r \in DOMAIN sc.table |-> RowCellsC(sc.table[r], r, CountOf(sc, r), BadCol(sc, r), WrongCol(sc, r))])
     \o (IF sc.trailer THEN <<Cell("cnt1", -1), Cell("cnt2", 0)>> ELSE <<>>)
 
@@ -79,7 +84,7 @@ Chunks(sc) == ChunksFrom(Stream(sc), 1, {c \in sc.cuts : c < Len(Stream(sc))})
 (* bad one, then an error; or all rows, then end-of-stream.                *)
 (***************************************************************************)
 RowLen(row) == 2 + Len(Concat([j \in DOMAIN row |-> FieldCells(row[j], 0, j)]))
-HdrLen(sc) == IF sc.hdr THEN 4 ELSE 0
+HdrLen(sc) == IF sc.hdr THEN 4 + ExtOf(sc) ELSE 0
 \* cells up to and including row r
 RECURSIVE UpTo(_, _)
 UpTo(sc, r) == IF r = 0 THEN HdrLen(sc) ELSE UpTo(sc, r - 1) + RowLen(sc.table[r])
@@ -120,7 +125,7 @@ ExpectedRows(sc) == SubSeq(sc.table, 1, GoodRows(sc))
 VARIABLES sc,       \* the scenario (fixed)
           chunks,   \* CopyData chunks not yet read (then CopyDone)
           buf,      \* received and not yet consumed cells
-          pc,       \* "hdr" | "hdr2" | "cnt" | "len" | "val"
+          pc,       \* "hdr" | "hdr2" | "hext" | "cnt" | "len" | "val"
           cur,      \* fields of the row in progress
           k,        \* cells of the value being awaited
           out,      \* rows returned so far
@@ -132,7 +137,7 @@ RInit(s) ==
     /\ sc = s /\ chunks = Chunks(s) /\ buf = <<>> /\ pc = "hdr" /\ cur = <<>> /\ k = 0
     /\ out = <<>> /\ status = "run"
 
-Needed == CASE pc = "hdr" -> 2 [] pc = "hdr2" -> 4 [] pc = "cnt" -> 2 [] pc = "len" -> 2 [] pc = "val" -> k
+Needed == CASE pc = "hdr" -> 2 [] pc = "hdr2" -> 4 [] pc = "hext" -> k [] pc = "cnt" -> 2 [] pc = "len" -> 2 [] pc = "val" -> k
 Have == Len(buf) >= Needed
 
 \* need(n): pull the next CopyData chunk
@@ -156,9 +161,17 @@ Hdr ==
     /\ pc' = IF buf[1].u = "sig1" /\ buf[2].u = "sig2" THEN "hdr2" ELSE "cnt"
     /\ UNCHANGED <<sc, chunks, buf, cur, k, out, status>>
 
+\* flags (ignored) and the length of the extension area - taken from the fourth cell of the header
 Hdr2 ==
     /\ status = "run" /\ pc = "hdr2" /\ Have
-    /\ buf' = SubSeq(buf, 5, Len(buf)) /\ pc' = "cnt"
+    /\ buf' = SubSeq(buf, 5, Len(buf))
+    /\ IF buf[4].v = 0 THEN pc' = "cnt" /\ UNCHANGED k ELSE pc' = "hext" /\ k' = buf[4].v
+    /\ UNCHANGED <<sc, chunks, cur, out, status>>
+
+\* the extension area is skipped
+HExt ==
+    /\ status = "run" /\ pc = "hext" /\ Have
+    /\ buf' = SubSeq(buf, k + 1, Len(buf)) /\ pc' = "cnt"
     /\ UNCHANGED <<sc, chunks, cur, k, out, status>>
 
 Cnt ==
@@ -195,7 +208,7 @@ Val ==
        ELSE Finish(Append(cur, [c |-> "v", n |-> k])) /\ UNCHANGED status
     /\ UNCHANGED <<sc, chunks, k>>
 
-RNext == Pull \/ StreamEnds \/ Hdr \/ Hdr2 \/ Cnt \/ Lenf \/ Val
+RNext == Pull \/ StreamEnds \/ Hdr \/ Hdr2 \/ HExt \/ Cnt \/ Lenf \/ Val
 
 ---------------------------------------------------------------------------
 (* C14: rows decode to what was sent, however the stream is chunked; a bad *)
